@@ -345,6 +345,17 @@ pub fn name_cases(ctx: &Ctx, spec: &FarmSpec, col: &mut Collected, names: &[Pool
         col.add(ctx, spec, &[decorated(&el("r", &[], vec![Item::Elem(el(n, &["k"], vec![])), Item::Elem(el(&numbered, &["k"], vec![]))]))]);
         col.add(ctx, spec, &[decorated(&el("r", &[], vec![Item::Elem(el(&numbered, &["k"], vec![])), Item::Elem(el(n, &["k"], vec![]))]))]);
     }
+    // two leaf names whose qualified struct names concatenate alike (six names)
+    for sep in ["_", "-", "."] {
+        let ab = format!("a{}b", sep);
+        let bc = format!("b{}c", sep);
+        col.add(ctx, spec, &[decorated(&el("r", &[], vec![
+            Item::Elem(el(&ab, &[], vec![Item::Elem(el("c", &["k"], vec![]))])),
+            Item::Elem(el("d", &[], vec![Item::Elem(el("c", &["k"], vec![]))])),
+            Item::Elem(el("a", &[], vec![Item::Elem(el(&bc, &["k"], vec![]))])),
+            Item::Elem(el("e", &[], vec![Item::Elem(el(&bc, &["k"], vec![]))])),
+        ]))]);
+    }
     // names that are the join of other names with a separator: r/a<sep>b/c next to r/a/b<sep>c
     for sep in [".", "-", "_"] {
         let ab = format!("a{}b", sep);
